@@ -23,7 +23,7 @@ THEOREMS = ["C06_left_table", "C06_right_table", "C06_leaf_never_bracketed", "C0
             "C06_mul_div_refuted", "C06_nonvacuous"]
 
 PCHECK = ("Ref.Lexer Ref.Parser Ref.TreeOf",
-          "Definition pcheck (cx : ctx) (t : term) (sql : str) : option bool := grouping_ok (dialect cx) t sql.\n"
+          "Definition pcheck (cx : ctx) (t : term) (sql : str) (param : bool) (vals : list str) : option bool := grouping_ok (dialect cx) t sql.\n"
           "Definition known (t : term) : bool := kf_c06 t.\n")
 
 
